@@ -263,6 +263,10 @@ func failWith(w http.ResponseWriter, mode string) int {
 		status = http.StatusForbidden
 		env.Errors = []apiError{{Code: 10000, Message: "Authentication error"}}
 	}
+	if mode == "envelope-no-errors" {
+		// HTTP 200, "success": false and an empty error list: the refusal is in the success member alone
+		env.Errors = []apiError{}
+	}
 	write(w, status, env)
 	return status
 }
